@@ -368,7 +368,7 @@ class Executor:
             raise MirUnsupported('downcast of %r' % (v,))
         if k in ('index', 'cindex'):
             idx = step[1]
-            if isinstance(v, Agg) and v.name == 'array':
+            if isinstance(v, Agg) and v.name in ('array', 'Vec'):
                 if isinstance(idx, int):
                     return v.fields[idx]
                 idx = z3.simplify(idx)
@@ -442,6 +442,19 @@ class Executor:
     def load(self, path, ref):
         return self.load_raw(path, ref.key, ref.proj)
 
+    def snapshot(self, path, v, depth=0):
+        """deep copy with every reference replaced by its referent (events outlive the frames their arguments point into)"""
+        if depth > 8:
+            return v
+        if isinstance(v, Ref):
+            try:
+                return self.snapshot(path, self.load(path, v), depth + 1)
+            except MirUnsupported:
+                return v
+        if isinstance(v, Agg):
+            return Agg(v.name, v.variant, {k: self.snapshot(path, x, depth + 1) for k, x in v.fields.items()})
+        return v
+
     def deref_all(self, path, v):
         while isinstance(v, Ref):
             v = self.load(path, v)
@@ -507,8 +520,17 @@ class Executor:
                     val = ('constref', val[1], cand)
                 self.const_cache[cand] = val
             return self.const_cache[cand]
-        if self.m.has(name) or any(x == name for x in self.m.index):
-            return FnItem(name)
+        # constant enum value printed inline, e.g. `Result::<Infallible, ()>::Err(())` or `Option::<T>::None`
+        from .mir import split_top, parse_const, split_trailing_group
+        head, inner = split_trailing_group(name)
+        if inner is not None or re.search(r'::(None|Some|Ok|Err)$', name):
+            base, variant = self.split_adt(head, None)
+            if variant is not None:
+                fields = {}
+                if inner is not None and inner.strip():
+                    for i, part in enumerate(split_top(inner)):
+                        fields[i] = self.const_value(path, parse_const(part[6:] if part.startswith('const ') else part))
+                return Agg(base, variant, fields)
         return FnItem(name)
 
     def resolve_item(self, name, kinds):
@@ -1294,7 +1316,16 @@ class Executor:
         if self.m.has(base):
             return base
         if base.startswith('<'):
-            return None          # trait-qualified call: never resolved by name
+            # <Type as Trait>::method implemented in this crate: unique local fn `..::method` whose receiver is Type
+            m = re.match(r"<&?(?:mut )?([\w:]+)(?:<.*>)? as .*>::(\w+)$", callee)
+            if not m:
+                return None
+            ty, meth = m.group(1).split('::')[-1], m.group(2)
+            hits = [n for n in self.m.index if n.endswith('::' + meth) and self.m.headers[n].startswith('fn ') and
+                    re.search(r'\(_1: &?(mut )?(\w+::)*' + re.escape(ty) + r'\b', self.m.headers[n])]
+            if nargs is not None:
+                hits = [n for n in hits if len(self.m.get(n).params) == nargs]
+            return hits[0] if len(hits) == 1 else None
         seg = base.split('::')
         tail = '::' + seg[-1]
         hits = [n for n in self.m.index if n.endswith(tail) and self.m.headers[n].startswith('fn ')]
